@@ -2,6 +2,7 @@
 pub mod check;
 pub mod ctx;
 pub mod iso;
+pub mod keyed;
 pub mod meter;
 pub mod rng;
 pub mod shrink;
@@ -9,4 +10,5 @@ pub mod tape;
 
 pub use check::{main_for, Arm, CheckSpec, FnArm, RunInfo, Tier};
 pub use ctx::{guard, Ctx, PanicInfo, Violation};
+pub use keyed::Keyed;
 pub use tape::Chooser;
